@@ -66,6 +66,13 @@ func runeCompares(blocks []*ssa.BasicBlock) map[int64]bool {
 // closureBehind resolves a call through a captured func variable to the
 // closure stored in it.
 func closureBehind(v ssa.Value) *ssa.Function {
+	switch x := v.(type) {
+	case *ssa.Function: // a named function called directly
+		return x
+	case *ssa.MakeClosure:
+		f, _ := x.Fn.(*ssa.Function)
+		return f
+	}
 	addr, ok := isLoad(v)
 	if !ok {
 		return nil
